@@ -37,6 +37,10 @@ func FloydWarshall(g graph.Graph) (paths AllShortest, ok bool) {
 			if !ok {
 				panic("floyd-warshall: unexpected invalid weight")
 			}
+			if i == j && w >= 0 {
+				// A non-negative self loop never shortens a path.
+				continue
+			}
 			paths.set(i, j, w, j)
 		}
 	}
